@@ -66,14 +66,14 @@ struct FakeTS {
 struct RecSched {
   long k = 0;
   dispenso::OnceFunction saved;
-  bool has = false;
+  std::atomic<bool> has{false};   // set by the dispatching thread, which in nt mode is the unenrolled NewThreadInvoker thread
   void doit(dispenso::OnceFunction f) {
     dispenso_verif_point("h.dispatch", this);
     logres("disp", k);
     if (g_impl->status_.intrusiveStatus().load() != Impl::kReady) g_early.fetch_add(1);
     g_dispatched[k].fetch_add(1);
     saved = std::move(f);
-    has = true;
+    has.store(true, std::memory_order_release);
   }
   void schedule(dispenso::OnceFunction f) { doit(std::move(f)); }
   void schedule(dispenso::OnceFunction f, dispenso::ForceQueuingTag) { doit(std::move(f)); }
@@ -193,7 +193,7 @@ static void distribute(World& w, Fut& f) {
 
 static void runContinuations(World& w) {
   for (int k = 0; k < kMaxK; ++k)
-    if (w.recs[k].has) w.recs[k].saved();
+    if (w.recs[k].has.load(std::memory_order_acquire)) w.recs[k].saved();
 }
 
 static void runScheduled(Case& c) {
@@ -235,6 +235,19 @@ static void runNative(Case& c) {
     });
   for (auto& x : thr) x.join();
   f.wait();
+  // The functor's thread (NewThreadInvoker, not ours to join) publishes Ready BEFORE it drains the then-chain, so wait() can return
+  // while that thread is still dispatching: let it finish before the counters are read.  Every then() op has returned (its thread is
+  // joined), so a correct implementation dispatches each registered continuation; the cap only matters for one that never does.
+  {
+    auto t0 = std::chrono::steady_clock::now();
+    auto pending = [&]() {
+      for (auto& th : c.ths)
+        for (auto& o : th.prog)
+          if (o.k == 'T' && !w->recs[o.a].has.load(std::memory_order_acquire)) return true;
+      return false;
+    };
+    while (pending() && std::chrono::steady_clock::now() - t0 < std::chrono::seconds(5)) std::this_thread::yield();
+  }
   runContinuations(*w);
   printf("steps | results");
   for (size_t t = 0; t < g_nativeRes.size(); ++t)
